@@ -368,7 +368,7 @@ func parseNetworkMessage(version uint8, data []byte) (*PeerMessage, error) {
 	msg := &PeerMessage{Type: data[0], version: version}
 	switch msg.Type {
 	case PeerMessageTypePreCommitments:
-		if len(data) < 80 {
+		if len(data) < 67 {
 			return nil, fmt.Errorf("invalid commitments message size %d", len(data))
 		}
 		var sig crypto.Signature
